@@ -237,6 +237,29 @@ def r2_order(ctx):
             ctx.fail('C15.R2', f'{func_label(fn)}|plan-iterates-sorted-list', loc(fn, n), f'restore iterates `{src(n.iter)}` instead of the sorted snapshot list')
     for cmd in ('list_snapshots', 'list_files'):
         f = corpus.func('repository', f'Repository.{cmd}')
+        # one row per listed record: rows are collected by append, or under a key that is unique per record (its path);
+        # a mapping keyed by the sort value merges records that share it (every snapshot of another key has no timestamp)
+        printed = set()
+        for lp in walk_local(f.node):
+            if isinstance(lp, ast.For) and any(isinstance(c_, ast.Call) and dotted(c_.func) == 'print' for c_ in ast.walk(lp)):
+                printed |= {x.id for x in ast.walk(lp.iter) if isinstance(x, ast.Name)}
+        load_loops = [l for l in walk_local(f.node) if isinstance(l, (ast.For, ast.AsyncFor)) and any(isinstance(x, ast.Attribute) and x.attr == '_load_snapshots' for x in ast.walk(deref_at(f.node, l.iter) if isinstance(l.iter, ast.Name) else l.iter))]
+        unique_names = {e.id for l in load_loops if isinstance(l.target, ast.Tuple) and l.target.elts and isinstance(l.target.elts[0], ast.Name) for e in [l.target.elts[0]]}
+        for a_ in walk_local(f.node):
+            if isinstance(a_, ast.Assign):
+                for t in a_.targets:
+                    if isinstance(t, ast.Subscript) and isinstance(t.value, ast.Name) and t.value.id in printed and any(is_within(a_, l) for l in load_loops):
+                        kd = deref_at(f.node, t.slice) if isinstance(t.slice, ast.Name) else t.slice
+                        uniq = any(isinstance(x, ast.Name) and x.id in unique_names for x in ast.walk(kd))
+                        ctx.check(
+                            uniq,
+                            'C15.R2',
+                            f'{func_label(f)}|one-row-per-record',
+                            loc(f, a_),
+                            f'{cmd}: rows are kept under a key that is unique per listed record',
+                            f'{cmd}: rows are kept in `{t.value.id}` under `{src(t.slice, 40)}`, which is not unique per record: records with equal keys (all snapshots whose details cannot be decrypted, files with equal timestamps) replace each other - '
+                            'existing snapshots are missing from the listing',
+                        )
         ss = [c for c in calls_in(f.node) if isinstance(c.func, ast.Attribute) and c.func.attr == 'sort' and isinstance(c.func.value, ast.Name)]
         var = ss[0].func.value.id if ss else None
         ctx.floor('C15.R2', f'sort in {cmd}', len(ss))
